@@ -6,4 +6,5 @@ INVARIANT M_Safety
 INVARIANT M_End
 INVARIANT M_NoDeadEnd
 INVARIANT M_Depth
+INVARIANT M_ErrorOnlyNoLaunch
 CHECK_DEADLOCK FALSE
